@@ -138,6 +138,8 @@ func (zr zeroReader) Read(b []byte) (int, error) {
 // expandSparse grows the file with zero blocks of 4096
 // A small blocksize is chosen to aid in deduplication
 func (dm *DagModifier) expandSparse(size int64) error {
+	// The append below rewrites curNode in place; a cached reader shares that node.
+	dm.dropReader()
 	r := io.LimitReader(zeroReader{}, size)
 	spl := chunker.NewSizeSplitter(r, 4096)
 	nnode, err := dm.appendData(dm.curNode, spl)
@@ -152,6 +154,16 @@ func (dm *DagModifier) expandSparse(size int64) error {
 	// Without this, writes after sparse expansion would go to the old node.
 	dm.curNode = nnode
 	return nil
+}
+
+// dropReader discards the reader cached by Read/CtxReadFull. It must be called
+// before curNode is modified or replaced: the reader walks the node it was
+// created with and would return stale data, or fail, after the change.
+func (dm *DagModifier) dropReader() {
+	if dm.read != nil {
+		dm.read = nil
+		dm.readCancel()
+	}
 }
 
 // Write continues writing to the dag at the current offset
@@ -752,6 +764,9 @@ func (dm *DagModifier) Truncate(size int64) error {
 	if size > realSize {
 		return dm.expandSparse(size - realSize)
 	}
+
+	// dagTruncate rewrites curNode in place; a cached reader shares that node.
+	dm.dropReader()
 
 	nnode, err := dm.dagTruncate(dm.ctx, dm.curNode, uint64(size))
 	if err != nil {
